@@ -89,6 +89,25 @@ def check_function(cx, f, exit_kinds=("err", "residual"), variant=None):
             if hit:
                 out.append({"store": ".".join(str(x) for x in s["path"]) or "<receiver>", "store_kind": s["kind"], "why": s["why"],
                             "exit": exit_desc(b, e), "loc_store": mir.loc_of(s["node"]), "loc_exit": mir.loc_of(n)})
+    # a fallible callee whose result is returned directly ("delegated" exit): the callee's own stores are its own business,
+    # but every *earlier* store of this function is left behind when the callee fails
+    if "err" in exit_kinds:
+        for e in flow.exits(b):
+            if e["kind"] != "deleg":
+                continue
+            ebb = e["bb"]
+            n = e["node"]
+            name, info = mir.callee(n) if n.get("k") == "call" else (None, None)
+            cb = cx.u.bodies.get(name)
+            if cb is None or not (cb["locals"][0]["ty"].startswith("std::result::Result<") or cb["locals"][0]["ty"].startswith("std::option::Option<")):
+                continue
+            for s in sites:
+                if s["node"] is n:
+                    continue
+                hit = ebb in reach_cache.get(s["bb"], mir.reachable(b, mir.succs(b, s["bb"]))) or (ebb == s["bb"] and s["idx"] < 10 ** 6)
+                if hit:
+                    out.append({"store": ".".join(str(x) for x in s["path"]) or "<receiver>", "store_kind": s["kind"], "why": s["why"],
+                                "exit": "Err of the delegated call " + mir.norm(name).split("::")[-1], "loc_store": mir.loc_of(s["node"]), "loc_exit": mir.loc_of(n)})
     # de-duplicate by (store, exit)
     seen, uniq = set(), []
     for v in out:
